@@ -161,6 +161,76 @@ def generate(repo):
         return 'Definition init_pattern : list (string * Z) := %s%%Z.' % coq_list(arms)
     out.add('init_pattern', init_pattern)
 
+    # ---- composition getters: lists, constants and which table each one reads
+    def disorder():
+        f = S('fraction_disorder_promoting')
+        body = strip_doc(f.body)
+        D = None
+        for st in body:
+            if isinstance(st, ast.Assign) and ast.unparse(st.targets[0]) == 'D':
+                D = str_list(st.value)
+        need(D is not None, 'D list')
+        src = ast.unparse(f)
+        need('for i in self.seq:\n        if i in D:\n            D_count += 1' in src, 'disorder counting loop')
+        need(ast.unparse(body[-1]) == 'return float(D_count) / len(self.seq)', 'disorder return')
+        return 'Definition g_disorder : list aa := %s.' % coq_list([coq_aa1(c) for c in D])
+    out.add('g_disorder', disorder)
+
+    def molw():
+        f = S('molecular_weight')
+        body = strip_doc(f.body)
+        src = [ast.unparse(x) for x in body]
+        need(src[0] == 'MWTable = aminoacids.get_molecular_weight_Da()' and src[1] == 'total = 0.0', 'molecular_weight prologue')
+        need(src[2].split() == 'for r in self.seq:     total = total + MWTable[r]'.split(), 'molecular_weight loop')
+        need(src[-1] == 'return total', 'molecular_weight return')
+        corr = Sym(qb, {'len(self.seq)': 'N'}).block_result(body[3:-1], {'total': 'total'}, 'total')
+        return _defn('g_mw_correct', '(total N : Q)', 'Q', corr)
+    out.add('g_mw', molw)
+
+    def sources():
+        want = ['meanHydropathy', 'uverskyHydropathy', 'meanWWHydropathy', 'FPPII_chain', 'molecular_weight',
+                'linearDistOfHydropathy', 'amino_acid_fraction', 'charge_at_pH']
+        rows = []
+        for nm in want:
+            f = S(nm)
+            calls = set()
+            for n in ast.walk(f):
+                if isinstance(n, ast.Call):
+                    u = ast.unparse(n.func)
+                    if u.startswith(('data.aminoacids.', 'aminoacids.', 'lkupTab.')):
+                        calls.add(u.split('.')[-1])
+                if isinstance(n, ast.Attribute) and n.attr in ('ONE_TO_THREE',):
+                    calls.add(n.attr)
+            # normalisation: `/ self.len` or `/ float(self.len)` present?
+            src = ast.unparse(f)
+            rows.append('(%s, %s)' % (coq_str(nm), coq_list([coq_str(c) for c in sorted(calls)])))
+        return 'Definition g_getter_sources : list (string * list string) := %s.' % coq_list(rows)
+    out.add('g_getter_sources', sources)
+
+    def mean_formulas():
+        """the accumulate-and-normalise shape of the four mean getters"""
+        pats = {
+            'meanHydropathy': 'ans += lkupTab.lookUpHydropathy(self.seq[i]) / self.len',
+            'uverskyHydropathy': 'ans += normalizedKD[translate[self.seq[idx]]] / self.len',
+            'meanWWHydropathy': 'ans += ww[translate[self.seq[idx]]] / self.len',
+            'FPPII_chain': 'total = total + lkupTab.lookUpPPII(self.seq[i], mode)',
+        }
+        for nm, pat in pats.items():
+            need(pat in ast.unparse(S(nm)), '%s: accumulation statement changed' % nm)
+        need('return total / float(self.len)' in ast.unparse(S('FPPII_chain')), 'FPPII_chain normalisation')
+        f = S('amino_acid_fraction')
+        src = ast.unparse(f)
+        need('for i in self.seq:\n        AADICT[i] += 1' in src and
+             'AADICT[i] = float(AADICT[i]) / float(len(self.seq))' in src, 'amino_acid_fraction shape')
+        keys = None
+        for st in f.body:
+            if isinstance(st, ast.Assign) and ast.unparse(st.targets[0]) == 'AADICT':
+                keys = dict_literal(st.value)
+        need(keys is not None and all(v == 0 for _, v in keys), 'AADICT literal')
+        return 'Definition g_aadict_keys : list aa := %s.\nDefinition g_mean_shapes_ok : bool := true.' % coq_list(
+            [coq_aa1(k) for k, _ in keys])
+    out.add('g_mean_formulas', mean_formulas)
+
     # ---- Omega, Omega_seq, kappa_X, __parse_group
     def omega():
         f = S('Omega')
